@@ -471,6 +471,12 @@ def sf_snoc(fv, node, st):
     return SV(P.snoc(s.term, box(x)), s.ty)
 
 
+def sf_set_add(fv, node, st):
+    s, x = [fv.ev(a, st, True) for a in node.args]
+    ety = s.ty.args[0]
+    return SV(P.sadd(s.term, box(coerce(x, ety) if not ety.is_any else x)), s.ty)
+
+
 def sf_set_of(fv, node, st):
     s = fv.ev(node.args[0], st, True)
     return SV(P.set_of_seq(s.term), T.Set(s.ty.elem()))
@@ -544,7 +550,7 @@ SPEC_FORMS = {
     'forall': sf_forall, 'exists': sf_exists, 'implies': sf_implies, 'iff': sf_iff, 'old': sf_old,
     'keys': sf_keys, 'seq_eq': sf_seq_eq, 'set_eq': sf_set_eq, 'map_eq': sf_map_eq, 'map_eqv': sf_map_eqv, 'same': sf_same,
     'nodup': sf_nodup, 'take': sf_take, 'drop': sf_drop, 'seq_remove': sf_seq_remove, 'index_of': sf_index_of, 'restrict': sf_restrict,
-    'mupdate': sf_mupdate, 'put': sf_put, 'rem': sf_rem, 'snoc': sf_snoc, 'set_of': sf_set_of, 'elems': sf_elems,
+    'mupdate': sf_mupdate, 'put': sf_put, 'rem': sf_rem, 'snoc': sf_snoc, 'set_add': sf_set_add, 'set_of': sf_set_of, 'elems': sf_elems,
     'empty_map': sf_empty_map, 'empty_seq': sf_empty_seq, 'empty_set': sf_empty_set, 'typed': sf_typed,
     'cast': sf_cast, 'truthy': sf_truthy, 'fresh': sf_fresh, 'allocated': sf_allocated,
     'unchanged': sf_unchanged, 'ite': sf_ite,
